@@ -2,6 +2,7 @@ import AwsVerif.Model.LogSpec
 import AwsVerif.Proofs.C14.Format
 import AwsVerif.Proofs.C14.Bg
 import AwsVerif.Proofs.C14.Fg
+import AwsVerif.Proofs.C14.Na
 /-! Proofs of the C14 property theorems (statements repeated in `AwsVerif/Props/C14.lean`). -/
 namespace AwsVerif.Proofs.C14.Thm
 open AwsVerif.Log AwsVerif.Gen.Log AwsVerif.Proofs.C14
@@ -260,6 +261,17 @@ theorem c14_gate_after_store (p : Pipe) (l : Nat) (h : List Op) (hch : p.chan = 
         rw [i1]
         simp [passing, hle]
 
+/-- **A failing writer changes nothing about ownership.**  With the foreground channel, whether the writer's
+`write` succeeds or fails for this line, the call reports success, the line counts as handed to the writer, and it
+is destroyed exactly once (by the channel — the pipeline must not, and does not, destroy it again). -/
+theorem c14_writer_failure (p : Pipe) (c : Call) (line : Bytes) (hch : p.chan = .foreground)
+    (hf : defaultFormat c.level c.subject c.msg c.ts c.tid = .ok line) :
+    (pipelineLog p c).2 = true ∧
+    (pipelineLog p c).1.written = p.written ++ [line] ∧
+    (pipelineLog p c).1.destroyed = p.destroyed ++ [line] ∧
+    (pipelineLog p c).1.writeErrors = p.writeErrors + (if c.writeOk then 0 else 1) := by
+  simp [pipelineLog, hf, hch]
+
 /-! ## Background channel: every interleaving of senders, background thread, clean-up and spurious wake-ups
 
 `Bg.Reachable s`: `s` is reached from the initial state by any sequence of `Bg.Act`s — new sends by any
@@ -371,5 +383,18 @@ theorem c14_fg_safety (s : Fg.Sys) (hr : Fg.Reachable s) :
     rcases hi.wDone l hl with h | h
     · exact h
     · rw [hidle] at h; cases h
+
+/-- **No-alloc logger used by any number of threads**, every interleaving: the file holds exactly the lines the
+calls formatted, in the order of their `fwrite`s — none torn, replaced or duplicated (`file = logged.map some`,
+which rests on each call formatting into its own buffer); a thread's lines appear in its call order and no
+line twice; every call that has returned has its line in the file; and at most one thread is between lock
+and unlock. -/
+theorem c14_noalloc_threads (s : Na.Sys) (hr : Na.Reachable s) :
+    s.file = s.logged.map some ∧
+    s.logged.Pairwise (fun a b => a.1 = b.1 → a.2 < b.2) ∧ s.logged.Nodup ∧
+    (∀ l ∈ s.returned, l ∈ s.logged) ∧
+    (∀ t, nHolds (s.pcs t) = true ↔ s.mutex = some t) := by
+  have hi := ninv_reachable hr
+  exact ⟨hi.file, hi.lOrd, sameOrd_nodup hi.lOrd, hi.ret, hi.mx⟩
 
 end AwsVerif.Proofs.C14.Thm
